@@ -3,7 +3,7 @@
 From Coq Require Import List NArith Bool Arith Lia String.
 From Verif.Common Require Import Packet PolicyRef Ipt.
 From Verif.C08 Require Import Model Spec ProofsMark ProofsExact ProofsFilter Proofs ProofsChain.
-From Verif.C09 Require Import Model Spec ProofsMarks ProofsPolicy ProofsGroup ProofsEndpoint ProofsRaw ProofsStaged.
+From Verif.C09 Require Import Model Spec ProofsMarks ProofsPolicy ProofsGroup ProofsEndpoint ProofsRaw ProofsQos ProofsStaged.
 Import ListNotations.
 Open Scope N_scope.
 
@@ -88,55 +88,58 @@ Theorem endpoint_verdict_model : forall c e ec v name tiers profiles f p,
   NoDup (map fst (render_endpoint ec c v name tiers profiles)) ->
   (forall r, In r (all_rules tiers profiles) -> rule_ok c e r) ->
   profiles_in_domain ec profiles = true ->
+  other_unmarked e ->
   wf_packet p -> pk_ver p = v -> entry_mark_ok c p = true ->
-  ok_result ec c (expected ec (e_sets e) tiers profiles p) p
+  ok_result ec c (expected ec c e tiers profiles p) p
     (run_chain (3 + f) (render_endpoint ec c v name tiers profiles) e name p) = true.
 Proof.
-  intros c e ec v name tiers profiles f p Hm Ht Hnd Hok Hpf Hw Hv Hd.
+  intros c e ec v name tiers profiles f p Hm Ht Hnd Hok Hpf Ho Hw Hv Hd.
   unfold run_chain. rewrite model_endpoint_lookup.
   change (3 + f)%nat with (S (S (S f))).
-  apply (endpoint_exact c e _ v Hm ec); try assumption.
+  apply (whole_chain_exact c e _ v Hm ec Ho); [|split; assumption|assumption].
+  intros q Hq Hdq. apply (endpoint_tail_exact c e _ v Hm ec); try assumption.
   - unfold is_normal. rewrite Ht. reflexivity.
   - apply model_tiers_in_cs; assumption.
   - apply model_profiles_in_cs; assumption.
   - apply model_failsafe_ok. assumption.
-  - split; assumption.
 Qed.
 
 Theorem forward_verdict_model : forall c e ec v name tiers profiles f p,
   marks_ok c = true -> ec_type ec = TForward ->
   NoDup (map fst (render_endpoint ec c v name tiers profiles)) ->
   (forall r, In r (all_rules tiers profiles) -> rule_ok c e r) ->
+  other_unmarked e ->
   wf_packet p -> pk_ver p = v -> entry_mark_ok c p = true ->
-  ok_result ec c (expected ec (e_sets e) tiers profiles p) p
+  ok_result ec c (expected ec c e tiers profiles p) p
     (run_chain (3 + f) (render_endpoint ec c v name tiers profiles) e name p) = true.
 Proof.
-  intros c e ec v name tiers profiles f p Hm Ht Hnd Hok Hw Hv Hd.
+  intros c e ec v name tiers profiles f p Hm Ht Hnd Hok Ho Hw Hv Hd.
   unfold run_chain. rewrite model_endpoint_lookup.
   change (3 + f)%nat with (S (S (S f))).
-  apply (forward_exact c e _ v Hm ec); try assumption.
+  apply (whole_chain_exact c e _ v Hm ec Ho); [|split; assumption|assumption].
+  intros q Hq Hdq. apply (forward_tail_exact c e _ v Hm ec); try assumption.
   - unfold is_normal, is_forward. rewrite Ht. reflexivity.
   - apply model_tiers_in_cs; assumption.
   - apply model_failsafe_ok. assumption.
-  - split; assumption.
 Qed.
 
 Theorem raw_verdict_model : forall c e ec v name tiers profiles f p,
   marks_ok c = true -> (ec_type ec = TUntracked \/ ec_type ec = TPreDNAT) ->
   NoDup (map fst (render_endpoint ec c v name tiers profiles)) ->
   (forall r, In r (all_rules tiers profiles) -> rule_ok c e r) ->
+  other_unmarked e ->
   wf_packet p -> pk_ver p = v -> entry_mark_ok c p = true ->
-  ok_result ec c (expected ec (e_sets e) tiers profiles p) p
+  ok_result ec c (expected ec c e tiers profiles p) p
     (run_chain (3 + f) (render_endpoint ec c v name tiers profiles) e name p) = true.
 Proof.
-  intros c e ec v name tiers profiles f p Hm Ht Hnd Hok Hw Hv Hd.
+  intros c e ec v name tiers profiles f p Hm Ht Hnd Hok Ho Hw Hv Hd.
   unfold run_chain. rewrite model_endpoint_lookup.
   change (3 + f)%nat with (S (S (S f))).
-  apply (raw_exact c e _ v Hm ec); try assumption.
+  apply (whole_chain_exact c e _ v Hm ec Ho); [|split; assumption|assumption].
+  intros q Hq Hdq. apply (raw_tail_exact c e _ v Hm ec); try assumption.
   - unfold is_normal, is_forward. destruct Ht as [Ht|Ht]; rewrite Ht; reflexivity.
   - apply model_tiers_in_cs; assumption.
   - apply model_failsafe_ok. assumption.
-  - split; assumption.
 Qed.
 
 (* ------------------------------------------------------------------ rule_ok from C08 *)
@@ -180,7 +183,7 @@ Qed.
 
 (* ------------------------------------------------------------------ the pinned tree and Pass rules in profiles *)
 Open Scope string_scope.
-Definition ec_w (fx : bool) : ecfg := Build_ecfg TNormal true None AllowAccept true None false fx.
+Definition ec_w (fx : bool) : ecfg := Build_ecfg TNormal true None AllowAccept true None false false false fx.
 Definition rule_udp_pass : rule :=
   Build_rule Pass None (Some 17) [] [] [] [] [] [] None [] [] [] None [] [] [] [] None [] [] [] [].
 (* one tier whose only policy passes everything; one profile: "pass UDP", then "allow" *)
@@ -198,7 +201,7 @@ Theorem profile_pass_refuted_unfixed :
     /\ wf_packet p /\ entry_mark_ok c p = true
     /\ ref_verdict (e_sets e) tiers profiles p = VAllow
     /\ (exists p', run_chain 4 (render_endpoint ec c (pk_ver p) "ep" tiers profiles) e "ep" p = RDone FDrop p')
-    /\ ok_result ec c (expected ec (e_sets e) tiers profiles p) p
+    /\ ok_result ec c (expected ec c e tiers profiles p) p
          (run_chain 4 (render_endpoint ec c (pk_ver p) "ep" tiers profiles) e "ep" p) = false.
 Proof.
   exists (cfg0 false), env_w, (ec_w false), tiers_w, profiles_w, pkt_w.
@@ -282,7 +285,7 @@ Qed.
 Lemma endpoint_rules_drop : forall ec c tiers profiles,
   endpoint_rules ec c (map drop_staged tiers) profiles = endpoint_rules ec c tiers profiles.
 Proof.
-  intros ec c tiers profiles. unfold endpoint_rules.
+  intros ec c tiers profiles. unfold endpoint_rules, endpoint_tail.
   rewrite (flat_map_ext_map (tier_rules ec c) drop_staged) by apply tier_rules_drop.
   destruct tiers; reflexivity.
 Qed.
@@ -336,12 +339,34 @@ Qed.
 Lemma endpoint_verdict_in_table : forall c e cs v (Hm : marks_ok c = true) ec f tiers profiles p,
   ec_type ec = TNormal ->
   tiers_in_cs c e cs v tiers -> profiles_in_cs c e cs v ec profiles -> failsafe_ok e cs ec (S (S f)) ->
+  other_unmarked e ->
   wfp v p -> entry_mark_ok c p = true ->
-  ok_result ec c (expected ec (e_sets e) tiers profiles p) p
+  ok_result ec c (expected ec c e tiers profiles p) p
     (run (S (S (S f))) cs e (endpoint_rules ec c tiers profiles) p) = true.
 Proof.
-  intros c e cs v Hm ec f tiers profiles p Ht. apply (endpoint_exact c e cs v Hm ec); [|exact Ht].
+  intros c e cs v Hm ec f tiers profiles p Ht Hti Hpi Hfs Ho Hw Hd.
+  apply (whole_chain_exact c e cs v Hm ec Ho); [|assumption|assumption].
+  intros q Hq Hdq. apply (endpoint_tail_exact c e cs v Hm ec); try assumption.
   unfold is_normal. rewrite Ht. reflexivity.
+Qed.
+
+(* the oracle accepts every run of the model, whatever the chain type *)
+Theorem model_meets_spec : forall c e ec v name tiers profiles f p,
+  marks_ok c = true ->
+  NoDup (map fst (render_endpoint ec c v name tiers profiles)) ->
+  (forall r, In r (all_rules tiers profiles) -> rule_ok c e r) ->
+  (ec_type ec = TNormal -> profiles_in_domain ec profiles = true) ->
+  other_unmarked e ->
+  wf_packet p -> pk_ver p = v -> entry_mark_ok c p = true ->
+  ok_result ec c (expected ec c e tiers profiles p) p
+    (run_chain (3 + f) (render_endpoint ec c v name tiers profiles) e name p) = true.
+Proof.
+  intros c e ec v name tiers profiles f p Hm Hnd Hok Hpf Ho Hw Hv Hd.
+  destruct (ec_type ec) eqn:Et.
+  - apply endpoint_verdict_model; auto.
+  - apply raw_verdict_model; auto.
+  - apply raw_verdict_model; auto.
+  - apply forward_verdict_model; auto.
 Qed.
 
 Lemma staged_inert : forall ec c v name tiers profiles,
@@ -351,3 +376,28 @@ Proof. intros. split; [apply staged_inert_render|intros; apply staged_inert_ref]
 
 Lemma group_chain_ignores_staged : forall c pols, group_body c pols = group_body c (nonstaged pols).
 Proof. intros. apply group_rules_nonstaged. Qed.
+
+(* ------------------------------------------------------------------ the placement condition on RETURN rules is needed *)
+(* "Return on verdict" only before the 6th enforced policy, while every 5th jump stays unconditional (the seeded
+   change return-stride-once): with 11 enforced policies the 11th is evaluated after the 6th allowed. *)
+Open Scope string_scope.
+Definition once_ret (k : nat) : bool := (k =? 5)%nat.
+Definition pols11 : list mpolicy :=
+  [Build_mpolicy "p1" false []; Build_mpolicy "p2" false []; Build_mpolicy "p3" false []; Build_mpolicy "p4" false [];
+   Build_mpolicy "p5" false []; Build_mpolicy "p6" false [any_rule Allow]; Build_mpolicy "p7" false [];
+   Build_mpolicy "p8" false []; Build_mpolicy "p9" false []; Build_mpolicy "p10" false [];
+   Build_mpolicy "p11" false [any_rule Deny]].
+Definition cs11 : chains :=
+  ("g", group_rules_gen once_ret stride_first cfg0' 0 pols11)
+  :: map (fun q => (mp_name q, policy_body cfg0' V4 (mp_rules q))) pols11.
+Theorem return_placement_necessary :
+  ~ (forall k, stride_first k = true -> k = 0%nat \/ once_ret k = true)
+  /\ pv (e_sets env_w) pols11 pkt_w = VAllow
+  /\ st cfg0' false false (pk_mark pkt_w)
+  /\ exists p', run_chain 3 cs11 env_w "g" pkt_w = RDone FDrop p'.
+Proof.
+  split. { intro H. destruct (H 10%nat eq_refl) as [E|E]; discriminate. }
+  split; [vm_compute; reflexivity|]. split; [repeat split; vm_compute; reflexivity|].
+  eexists. vm_compute. reflexivity.
+Qed.
+Close Scope string_scope.
